@@ -361,3 +361,8 @@ PROPS["C14"]["thorough"].append({"variant": "default", "cases": 150000, "params"
 # C20 big-batch lane: one rule matching 10k-40k terms in one call, replayed alone and concurrently (large match lists / maps)
 PROPS["C20"]["quick"].append({"variant": "default", "cases": 16, "params": {"big": 1, "case_timeout": 300}, "timeout": 900})
 PROPS["C20"]["thorough"].append({"variant": "default", "cases": 160, "params": {"big": 1, "case_timeout": 600}, "timeout": 3000})
+
+# C01/C02 with user slots named like fresh slots far above the fresh counter (terms "over all terms" include such names)
+for _p in ("C01", "C02"):
+    PROPS[_p]["quick"].append({"variant": "default", "cases": 5000, "params": {"profile": "mix", "naming": "fhigh"}, "timeout": 600})
+    PROPS[_p]["thorough"].append({"variant": "default", "cases": 150000, "params": {"profile": "mix", "naming": "fhigh"}, "timeout": 3000})
